@@ -77,11 +77,78 @@ def mutate_tree(rng, n):
     return P.Node(n.name, *(ch + [P.LiteralNode("", 0, 0)]))
 
 
+class Tagged(str):
+    """a str subclass that prints differently from its text"""
+    def __str__(self):
+        return "<tagged " + str.__str__(self) + ">"
+
+    def __format__(self, spec):
+        return "<fmt>" + str.__str__(self)
+
+    def __repr__(self):
+        return "Tagged(%s)" % str.__repr__(self)
+
+
+def make_enum_name(text):
+    import enum
+    return enum.Enum("Names", {"MEMBER": text}, type=str).MEMBER
+
+
 def _quiet(f):
     try:
         f()
     except Exception:  # noqa: BLE001  (a warm-up visit may reach a handler that raises on purpose)
         pass
+
+
+class NodeS0(P.Node):
+    __slots__ = ()
+
+
+class NodeS1(P.Node):
+    __slots__ = ("tag",)
+
+
+class NodeD(P.Node):
+    pass
+
+
+def as_subclass(n, kind):
+    if isinstance(n, P.LiteralNode):
+        return P.LiteralNode(n.value, n.offset, n.length)
+    cls = (NodeS0, NodeS1, NodeD)[kind]
+    m = cls(n.name, *[as_subclass(c, kind) for c in n.children])
+    if kind == 1:
+        m.tag = "same"
+    return m
+
+
+def thread_stress(stats):
+    """ONE visitor object shared by several threads, each visiting nodes of its own rule: every visit returns its own handler's result"""
+    import sys
+    import threading
+    ns = {"visit_" + k: (lambda self, node, k=k: (k, node.name)) for k in ("alpha", "beta", "gamma", "delta")}
+    v = type("SharedV", (P.NodeVisitor,), ns)()
+    bad = []
+
+    def worker(k):
+        node = P.Node(k, P.LiteralNode("x", 0, 1))
+        other = P.Node("no-handler")
+        for _ in range(25000):
+            r = v.visit(node)
+            if r != (k, k) or v.visit(other) is not None:
+                bad.append((k, r))
+                return
+    old = sys.getswitchinterval()
+    sys.setswitchinterval(1e-6)
+    try:
+        ths = [threading.Thread(target=worker, args=(k,)) for k in ("alpha", "beta", "gamma", "delta")]
+        [t.start() for t in ths]
+        [t.join() for t in ths]
+    finally:
+        sys.setswitchinterval(old)
+    stats["shared_visitor_visits"] = 4 * 25000 * 2
+    return bad
 
 
 def edit_in_place(rng, n):
@@ -188,6 +255,11 @@ def main():
             V = type("V", (Mid,), {})
         stats["hierarchy_shape_%d" % shape] = stats.get("hierarchy_shape_%d" % shape, 0) + 1
         calls.clear()
+        if rng.random() < 0.15:
+            # the name object is a str SUBCLASS whose str()/format() differ from its text (an Enum member, a tagged string): routing
+            # goes by the text
+            variant = rng.choice([Tagged, make_enum_name])(variant)
+            stats["str_subclass_names"] = stats.get("str_subclass_names", 0) + 1
         v = V()
         # node shapes: a rule node with one leaf, with NO children (a rule that matched the empty string), with several
         # children, and a literal leaf
@@ -247,6 +319,12 @@ def main():
     for _ in range(a.n):
         t1 = rand_tree(rng, 3)
         t2 = clone(t1) if rng.random() < 0.4 else (mutate_tree(rng, t1) if rng.random() < 0.7 else rand_tree(rng, 3))
+        if rng.random() < 0.2:
+            # both trees are instances of USER SUBCLASSES of Node (with empty __slots__, an extra slot, or no __slots__ at all): equality
+            # is still structural
+            kind = rng.randrange(3)
+            t1, t2 = as_subclass(t1, kind), as_subclass(t2, kind)
+            stats["node_subclass_pairs"] = stats.get("node_subclass_pairs", 0) + 1
         if rng.random() < 0.3:
             # trees EDITED IN PLACE after construction (children is a public list: pruning comment nodes, appending to a node
             # built empty, replacing a leaf): equality must look at the tree as it is now
@@ -262,6 +340,11 @@ def main():
         plan.append(("eq", {"t1": str(t1), "t2": str(t2)}, impl))
         stats["eq_pairs"] += 1
         stats["eq_true"] += impl == "1"
+    if a.seed % 2 == 0 or True:
+        bad = thread_stress(stats)
+        if bad:
+            lines.append("VISIT 0 l 1 120 0 1")
+            plan.append(("visit", {"what": "one visitor shared by four threads: a node of rule %r got the result %r" % bad[0]}, "EXC:shared-visitor-race"))
     p = subprocess.run([DRIVER], input="\n".join(lines) + "\n", capture_output=True, text=True, check=False)
     if p.returncode != 0:
         raise RuntimeError(p.stderr[-1000:])
